@@ -45,6 +45,11 @@ def run(chk):
     for e in tr + outs:
         chk.ob("C05.R1", has_lit(e.guard, z_amount, False), CORE, host, "zero-amount-noop:%s" % e.name, "a zero amount does nothing", where=e.where, expected="return under is_zero(amount) first",
                found=sym.fmt_guard(e.guard)[:200])
+    for r in S.raises:
+        if r.chain != (fi.qual,):
+            continue
+        chk.ob("C05.R1", has_lit(r.guard, z_amount, False), CORE, host, "zero-amount-never-raises", "a zero amount does nothing - it does not even validate the price (a flat child of a "
+               "strategy receives allocate(0) on every spread)", where=r.where, expected="return under is_zero(amount) before any validation", found=sym.fmt_guard(plain(r.guard))[:200])
     # ---- R2 price / parent guards dominate sizing and trading
     for e in tr + outs:
         g = G(e)
